@@ -10,7 +10,7 @@ use vcore::{compile, Check, Labels, Outcome, Plan, Project, Stats, Step, Tape, T
 pub struct C06;
 pub const CHECK: C06 = C06;
 pub fn plan(t: Tier) -> Plan {
-    Plan::new(t.pick(6_000, 120_000), t.pick(3000, 5000))
+    Plan::new(t.pick(20_000, 240_000), t.pick(3000, 5000))
 }
 
 #[derive(Clone, Serialize, Deserialize)]
